@@ -305,6 +305,25 @@ pub fn run(out_path: &str, tier: &str) {
 			}
 		}
 	}
+	// (a') Ed25519 keys whose public key begins / ends with a zero octet (about 1 key in 256 each)
+	for want in ["lead0", "trail0"] {
+		for _ in 0..4000 {
+			let info = new_key("k-z", "ed25519", &mut rng);
+			let hit = if want == "lead0" { info.raw_pub[0] == 0 } else { info.raw_pub[31] == 0 };
+			if hit {
+				if let Ok(k) = live_from_info(info, "remote") {
+					let mut p = CertificateParams::default();
+					if !cfg!(feature = "crypto") {
+						p.key_identifier_method = KeyIdMethod::PreSpecified(vec![1]);
+					}
+					if let Outcome::Ok(csr) = guarded(|| p.serialize_request(&k.kp)) {
+						bases.push((json!({"origin": "rcgen", "alg": "ed25519", "shape": format!("key-{}", want), "expectSupported": true}), csr.der().to_vec()));
+					}
+				}
+				break;
+			}
+		}
+	}
 	// (b) requests generated by OpenSSL, including key/hash pairings rcgen never produces
 	let pairings: [(&str, &str); 13] = [
 		("p256", "ecdsa-sha256"), ("p256", "ecdsa-sha384"), ("p256", "ecdsa-sha512"), ("p384", "ecdsa-sha256"), ("p384", "ecdsa-sha384"), ("p384", "ecdsa-sha512"),
@@ -355,6 +374,9 @@ pub fn run(out_path: &str, tier: &str) {
 			("critical-san", subj.clone(), vec![ext_req_attr(&[enc_seq(&[ext("2.5.29.17", true, &san_dns(&["c.d"]))])])]),
 			("empty-extension-request", subj.clone(), vec![ext_req_attr(&[enc_seq(&[])])]),
 			("plain-handcrafted", subj.clone(), vec![ext_req_attr(&[enc_seq(&[san1.clone(), ku1.clone()])])]),
+			("ku-san-ku", subj.clone(), vec![ext_req_attr(&[enc_seq(&[ku1.clone(), san1.clone(), ku2.clone()])])]),
+			("san-ku-san", subj.clone(), vec![ext_req_attr(&[enc_seq(&[san1.clone(), ku1.clone(), san2.clone()])])]),
+			("san-ku-eku-ku", subj.clone(), vec![ext_req_attr(&[enc_seq(&[san1.clone(), ku1.clone(), ext("2.5.29.37", false, &enc_seq(&[enc_oid("1.3.6.1.5.5.7.3.1")])), ku2.clone()])])]),
 		];
 		for (name, s, attrs) in shapes {
 			let der = handcraft(&key, "ecdsa-sha256", &s, &attrs);
